@@ -185,7 +185,12 @@ impl GraphInline {
                 if !self.is_ref() && text.eq_ignore_ascii_case(url) {
                     format!("<{}>", url)
                 } else if self.is_ref() {
-                    format!("[{}]({}{})", text, url, options.refs_extension)
+                    // an inline link keeps the url it was written with: do not add the extension a second time
+                    if !options.refs_extension.is_empty() && url.ends_with(&options.refs_extension) {
+                        format!("[{}]({})", text, url)
+                    } else {
+                        format!("[{}]({}{})", text, url, options.refs_extension)
+                    }
                 } else {
                     format!("[{}]({})", text, url)
                 }
